@@ -96,7 +96,7 @@ def predicate(c):
     if not r:
         return [("C11-empty-result", "harness produced no result")]
     for cls, _ in r:
-        if kind(cls) in ("panic", "hang"):
+        if kind(cls) in ("panic", "hang") and "framing" not in f:
             bad.append(("C17-panic-or-hang", f"operation outcome {cls}"))
     op = f.get("op", "")
     if "cross" in f:
@@ -105,6 +105,23 @@ def predicate(c):
         ks = [kind(x) for x, _ in r]
         if ks[0] != "kafka" or any(k != "ok" for k in ks[1:]) or any(x != "0" for _, x in r):
             bad.append((KEY_CROSS, "after a produce error the following heartbeats must each read their own frame: " + c["go"]))
+        return bad
+    if "framing" in f:
+        # C11: "after a transport-level or framing error every later operation on that Conn
+        # fails" — fails, i.e. RETURNS an error: a call that never returns is a violation
+        ks = [kind(x) for x, _ in r]
+        for i, k in enumerate(ks):
+            if k in ("hang", "notrun", "panic", "spin"):
+                if k != "notrun":
+                    bad.append(("C11-later-operation-hangs-after-framing-error",
+                                f"{f.get('kind')} on {op}: operation #{i + 1} of the same Conn ended as '{k}' (did not return / panicked): " + c["go"][:160]))
+                break
+        if ks and ks[0] not in ("ok", "kafka"):
+            for i, k in enumerate(ks[1:], 2):
+                if k in ("ok", "kafka"):
+                    bad.append(("C11-usable-after-framing-error",
+                                f"{f.get('kind')} on {op}: operation #1 failed with {r[0][0][:30]} but operation #{i} returned {r[i - 1][0][:40]}"))
+                    break
         return bad
     if "negcount" in f:
         if [kind(x) for x, _ in r] != ["fmt", "closed"] or any(x != "1" for _, x in r):
@@ -274,7 +291,11 @@ def evaluate(cases, res, want):
     """want(feats) selects the cases of this evaluation. Returns the correspondence dict."""
     sel = [c for c in cases if want(feats_of(c))]
     failures, notes = [], []
-    bad = L.diff_cases([c for c in sel if "drain" not in feats_of(c)], res)
+    notrun = [c for c in sel if "notrun~" in c["go"]]
+    if notrun:
+        notes.append(f"{len(notrun)} cases NOT RUN: the harness's circuit breaker tripped after 3 cases hit the 2 s watchdog "
+                     "(an operation of the real Conn never returned); the hung cases are reported as property violations")
+    bad = L.diff_cases([c for c in sel if "drain" not in feats_of(c) and "notrun~" not in c["go"]], res)
     for c in bad[:10]:
         pv = predicate(c)
         detail = json.dumps(dict(case=c["line"][:1500], go=c["go"][:300], model=str(c.get("model"))[:300], feats=c["feats"]))
@@ -304,11 +325,11 @@ def evaluate(cases, res, want):
     ev, dn, hist = L.coverage_counts(sel, trivial_feats=("",))
     # non-trivial: an error code other than 0, or a cut
     dn = len({c["line"] for c in sel if ("cut" in feats_of(c)) or ("drain" in feats_of(c) and not c["args"].endswith(" -"))
-              or feats_of(c).get("code", "0") not in ("0", True) or "cross" in feats_of(c)})
+              or feats_of(c).get("code", "0") not in ("0", True) or "cross" in feats_of(c) or "framing" in feats_of(c)})
     hist = {}
     for c in sel:
         f = feats_of(c)
-        for k in ("op", "field", "code", "cutpos", "msgset"):
+        for k in ("op", "field", "code", "cutpos", "msgset", "kind"):
             if k in f:
                 hist[f"{k}={f[k]}"] = hist.get(f"{k}={f[k]}", 0) + 1
     return dict(evaluations=ev, distinct_nontrivial=dn, hist=hist, failures=failures, notes=notes, sel=sel)
@@ -324,7 +345,11 @@ RULE = ("PART A (exhaustive, no randomness in the structure): every (operation, 
         "(quick: boundaries of every field + fixed sample; thorough: every byte).  A case is non-trivial when it carries a non-zero "
         "error code or a cut; distinct by the full case line.  PART C (no model; predicate only): fetch v2/v5/v10 with 1..3 records "
         "(magic 2) or 1..2 messages (magic 1), ReadMessage until error then Close, every cut position: the records delivered must be a "
-        "prefix of those sent and wholly received, Close must report a non-Kafka error and close the Conn.")
+        "prefix of those sent and wholly received, Close must report a non-Kafka error and close the Conn.  PART D (framing errors, "
+        "every (operation, version)): a response with a foreign correlation id / a size field 1 or 2 too small / 3 too large then EOF / "
+        "cut at 3 positions, followed by TWO further operations of different kinds on the same Conn, each case under a 2 s watchdog "
+        "(a call that does not return is class 'hang', a mismatch against the model and a property violation; after 3 hung cases the "
+        "rest are NOT RUN); compared with conn_do_i, which threads Conn.inflight.")
 
 
 def correspondence(ctx):
